@@ -16,12 +16,23 @@ import (
 // (The experimental parser proper is not executed: its arena-based AST uses unsafe idioms
 // the VM does not model; see DESIGN.md.)
 func HarnessC28Lex() {
-	maxN := 2
+	n := zz.IntRange(0, 2)
+	zzC28Body(zz.String(n))
+}
+
+// HarnessC28LexTmpl: the same assertions on a concrete prefix (zzXPrefixes) followed by 0..1
+// (quick) / 0..2 (thorough) arbitrary bytes.
+func HarnessC28LexTmpl() {
+	p := zzXPrefixes[zz.Choice(len(zzXPrefixes))]
+	k := 1
 	if zz.Tier() == 1 {
-		maxN = 3
+		k = 2
 	}
-	n := zz.IntRange(0, maxN)
-	text := zz.String(n)
+	zzC28Body(p + zz.String(zz.IntRange(0, k)))
+}
+
+func zzC28Body(text string) {
+	n := len(text)
 	zz.Assume(utf8.ValidString(text))
 	if n >= 2 {
 		zz.Assume(zz.And(text[0] != 0, text[1] != 0))
